@@ -507,6 +507,54 @@ func TestVerifC02(t *testing.T) {
 			emit(plNewServer(t, c), &plQuery{Name: name, QType: qt, Addr: cli, Answer: c02Answer(rnd, name, qt)}, "pause-expired-first-query")
 		}
 	}
+	// --- round 3: rule lists switched off and on through the web API
+	{
+		// the user rules block a name, the only enabled allow list exempts
+		// it; the exemption is used; then every allow list is disabled: an
+		// answer revealing the name is no longer delivered
+		c := base()
+		c.Block = nil
+		c.Custom = []*vfRule{{ID: 0, Pattern: "||b.a.test^"}, {ID: 1, Pattern: "||1.2.3.4^"}}
+		c.Lists = []*plList{{Name: "ads", Rules: []*vfRule{{ID: 100, Pattern: "||xa.test^"}}},
+			{Name: "ok", White: true, Rules: []*vfRule{{ID: 200, Pattern: "||b.a.test^"}}},
+			{Name: "ok-addr", White: true, Rules: []*vfRule{{ID: 210, Pattern: "||1.2.3.4^", White: true}}}}
+		ps := plNewServer(t, c)
+		step := func(name string, ans *dns.Msg, extra ...string) {
+			q := &plQuery{Name: name, QType: dns.TypeA, Addr: cli, Answer: ans}
+			emit(ps, q, append(ps.listsClasses(), extra...)...)
+			ps.recordAsk(q, &ps.last)
+		}
+		step("x.test.", plMsg(0, bad, good), "prelude-allow-list-exempts-record")
+		step("x.test.", plMsg(0, good, badA), "prelude-allow-list-exempts-record")
+		ps.setList(t, 1, false)
+		step("x.test.", plMsg(0, bad, good), "prelude-allow-list-disabled-record-blocked")
+		step("x.test.", plMsg(0, good, badA), "prelude-allow-list-exempts-record")
+		ps.setList(t, 2, false)
+		step("www.example.", plMsg(0, plCNAME("www.example.", 380, "b.a.test."), plA("b.a.test.", 381, "93.184.216.34")), "prelude-all-allow-lists-disabled-record-blocked")
+		step("x.test.", plMsg(0, good, badA), "prelude-all-allow-lists-disabled-record-blocked")
+		ps.setList(t, 1, true)
+		step("x.test.", plMsg(0, bad, good), "prelude-allow-list-exempts-record")
+		ps.setList(t, 0, false)
+		step("x.test.", plMsg(0, plCNAME("x.test.", 382, "xa.test."), good), "prelude-block-list-disabled-record-delivered")
+		ps.setList(t, 0, true)
+		step("x.test.", plMsg(0, plCNAME("x.test.", 382, "xa.test."), good), "prelude-block-list-reenabled-record-blocked")
+		out.Emit(ps.historyCase())
+	}
+	nL := out.Scale(30, 900)
+	for i := 0; i < nL; i++ {
+		c := plGenCfg(rnd, c02Targets)
+		if rnd.Chance(3, 4) {
+			c.ProtEnabled, c.Deadline, c.Filtering = true, 0, true
+		}
+		plGenLists(rnd, c, c02Targets)
+		ps := plNewServer(t, c)
+		plRunLists(t, out, rnd, ps, 10, func() *plQuery {
+			name := vfMixCase(rnd, vfPick(rnd, append([]string{"www.example", "www.example"}, vfNames...))) + "."
+			qt := vfPick(rnd, []uint16{dns.TypeA, dns.TypeA, dns.TypeAAAA, dns.TypeHTTPS})
+			return &plQuery{Name: name, QType: qt, Addr: netip.MustParseAddr(vfPick(rnd, plClientAddrs)), Answer: c02Answer(rnd, name, qt)}
+		}, emit)
+	}
+
 	// --- round 2 random: all features on, answers with offending records for names and rewrite targets
 	nX := out.Scale(80, 2400)
 	for i := 0; i < nX; i++ {
